@@ -126,6 +126,8 @@ struct Facts {
     generic: bool,
     tiny_below_r200: bool,
     max_set: bool,
+    /// rounding without a carry left zeros inside the digit budget (1.04 at 2 digits -> "1.0")
+    zeros_kept: bool,
 }
 
 /// Structural matchers for recorded findings.
@@ -136,7 +138,9 @@ fn classify(f: &Facts, clause: &str) -> Option<&'static str> {
     if clause == "notation" && f.carried && f.notation_matches_unrounded {
         return Some("c14_notation_judged_before_rounding_carry");
     }
-    if clause == "trim_floats" && f.rounds && !f.has_exp && !f.generic && !f.pow2_or_mixed {
+    // decimal writers (both notations): the zeros that rounding *without a carry* leaves inside the digit budget are
+    // kept as written digits, so "1.0" / "1.0e20" is not trimmed; after a carry, and when one digit remains, it is
+    if clause == "trim_floats" && f.rounds && !f.carried && f.zeros_kept && !f.generic && !f.pow2_or_mixed {
         return Some("c14_decimal_trim_not_applied_after_rounding");
     }
     if f.generic && !f.has_exp && f.tiny_below_r200 && (clause == "value" || clause == "max_significant_digits" || clause == "min_significant_digits") {
@@ -221,6 +225,7 @@ pub fn check(j: &Job, c: &Case, l: &mut Local) -> CaseResult {
             generic: radix != 10 && !is_pow2,
             tiny_below_r200: tiny,
             max_set: o.max_digits != 0,
+            zeros_kept: s0.stripped.len() > max && want.len() < max,
         });
     }
     // non-trivial rule
@@ -273,6 +278,11 @@ pub fn check(j: &Job, c: &Case, l: &mut Local) -> CaseResult {
     }
     if info.has_point && o.trim && p1.frac.iter().all(|&d| d == 0) && !info.has_exp && o.min_digits as usize <= s1.int_len {
         return Err(mk("trim_floats", format!("output {:?} is integral but the '.0' was not trimmed", show(&out))));
+    }
+    // exponent notation (decimal writers): a one-digit mantissa loses its ".0" too, unless the format wants a
+    // fraction in front of every exponent or more digits are asked for
+    if radix == 10 && info.has_point && o.trim && info.has_exp && p1.frac.iter().all(|&d| d == 0) && p1.int.len() == 1 && o.min_digits <= 1 && !(m.no_exponent_without_fraction && cfg!(feature = "format")) {
+        return Err(mk("trim_floats", format!("output {:?} has an integral one-digit mantissa but the '.0' was not trimmed", show(&out))));
     }
     if !info.has_point && !o.trim {
         return Err(mk("trim_floats", format!("output {:?} has no decimal point although trim_floats is off", show(&out))));
